@@ -387,7 +387,7 @@ func (loader *Loader) resolveComponent(doc *T, ref string, path *url.URL, resolv
 
 			// Special case due to multijson
 			case *SchemaRef:
-				if pathPart == "additionalProperties" {
+				if pathPart == "additionalProperties" && c.Value != nil {
 					if ap := c.Value.AdditionalProperties.Has; ap != nil {
 						cursor = *ap
 					} else {
@@ -411,7 +411,7 @@ func (loader *Loader) resolveComponent(doc *T, ref string, path *url.URL, resolv
 				}
 			}
 
-			if cursor == nil {
+			if cursor == nil || isNilPointer(cursor) {
 				return nil, failedToResolveRefFragmentPart(ref, pathPart)
 			}
 		}
@@ -480,6 +480,13 @@ func (loader *Loader) resolveComponent(doc *T, ref string, path *url.URL, resolv
 	default:
 		return nil, nil, fmt.Errorf("bad data in %q (expecting %s)", ref, readableType(resolved))
 	}
+}
+
+// isNilPointer tells whether x holds a nil pointer: such a value is not == nil
+// once it is stored in an interface.
+func isNilPointer(x any) bool {
+	v := reflect.ValueOf(x)
+	return v.Kind() == reflect.Ptr && v.IsNil()
 }
 
 func readableType(x any) string {
